@@ -46,6 +46,14 @@ def gen_recipe(rng, fmt, tier="quick"):
         "lon0": rng.choice([150.0, 0.0, 170.5, 359.0 - 6, -20.0]), "lat0": rng.choice([-30.0, 0.0, 45.25, -75.0]),
         "dlon": rng.choice([0.25, 0.5, 1.0]), "dlat": rng.choice([0.25, 0.5, 1.0]),
     }
+    if rng.random() < 0.1:
+        r["dir_dtype"] = rng.choice(["int64", "float32"])
+    if rng.random() < 0.08 and base in ("json", "netcdf", "ww3"):
+        r["freq_dtype"] = "float32"
+    if rng.random() < 0.1 and base in ("json", "netcdf", "swan"):
+        r["site_labels"] = "str"
+    if rng.random() < 0.3:
+        r["std_attrs"] = True
     if rng.random() < 0.2:
         r["dir_first"] = True
         if rng.random() < 0.5:
